@@ -304,9 +304,9 @@ def check_package(run, sc, g, enc, pkg, tag, rep, orders, complete, drive_calls)
                            and not any(isinstance(s, InlineFragmentNode) for s in fd.selection_set.selections))
                 if premise:
                     run.dist("direct_spread", "premise-holds")
-                    if pascal(f) not in got["bases"]:
-                        viol(f"{key} spreads {f} directly (fragment on {on}, no inline fragments) but {pascal(f)} is not a base: {got['bases']}",
-                             {"observed": got["bases"]})
+                    if fmod + "." + pascal(f) not in got["mro"]:
+                        viol(f"{key} spreads {f} directly (fragment on {on}, no inline fragments) but {pascal(f)} is not among its base classes: {got['mro']}",
+                             {"observed": got["mro"]})
                 else:
                     run.dist("direct_spread", "premise-fails")
             for b in c["bases"]:
